@@ -125,7 +125,7 @@ def _rt_cfg(tier):
 
 
 @harness('C06.roundtrip', 'C06', configs=_rt_cfg, functions=FUNCS, must_reach=['check:roundtrip'],
-         engine_opts={'fp_model': True},
+         engine_opts={'fp_model': True, 'oblig_timeout_ms': 120000},
          bounds='loop-free: every unit A and every B of its dimension: B->A(A->B(v)); |v| in [1e-100,1e100] (no overflow/underflow); '
                 'bound 16*2^-53 relative (temperatures: 24*2^-53 relative to |v|+600)',
          assumptions=['standard model of floating point arithmetic: fl(x op y) = (x op y)(1+d), |d| <= 2^-53, for every symbolic + - * / '
@@ -169,7 +169,7 @@ def _comp_cfg(tier):
 
 
 @harness('C06.compose', 'C06', configs=_comp_cfg, functions=FUNCS, must_reach=['check:compose'],
-         engine_opts={'fp_model': True},
+         engine_opts={'fp_model': True, 'oblig_timeout_ms': 120000},
          bounds='loop-free: A->B->C vs A->C for every A, C and (quick: 2 / thorough: all) B of the dimension; same ranges and rounding '
                 'model as C06.roundtrip; bound 32*2^-53 relative (temperatures: relative to |value in C|+600)',
          assumptions=['standard model of floating point arithmetic (see C06.roundtrip)'],
